@@ -132,7 +132,7 @@ int main(int argc, char** argv)
         // AMG setup + solve, standard vs node-aware from level 0: identical hierarchy sizes, residual histories equal up to reassociation
         for (int variant = 0; variant < (E.thorough ? 4 : 2); variant++) {
             snprintf(CTX, 96, "amg variant%d", variant);
-            int dim = 2; int grid[2] = { 12 + 3 * variant, 10 };
+            int dim = 2; int grid[2] = { 9 + variant, 9 + variant };   // square grids only (C19 finding)
             double* stencil = diffusion_stencil_2d(0.01 + 0.2 * variant, M_PI / (4 + variant));
             std::vector<std::vector<long long>> sizes[2]; std::vector<double> resid[2];
             for (int tap = 0; tap <= 1; tap++) {
